@@ -20,10 +20,11 @@ func VerifNow() time.Time { return now() }
 // VerifTick executes one tick of the daemon for minute t (the body of the loop in start()) and waits
 // until the goroutines it launched have returned from entry.Invoke.  run() itself is untouched: the
 // entry reader is wrapped for the duration of the call so that the jobs handed to run() report when
-// their Start/Stop/Restart returns.  The number to wait for is the number of entries whose Next is not
-// After(t) and not the zero time — the test run() applies since 3d1ee58 (F8 fix).  Entries whose Next is
-// the zero time were invoked before that fix: should they be invoked again they are still waited for, for
-// at most `grace`, so that a regression shows up as recorded calls rather than as a race.
+// their Start/Stop/Restart returns.  The number to wait for is the number of distinct (entry type,
+// DAG location) pairs among the entries whose Next is not After(t) and not the zero time — what run()
+// invokes since 3d1ee58 (F8) and 922dee6 (F10).  Entries that those fixes skip (zero Next; a second entry
+// of the same kind for the same DAG) are still waited for, for at most `grace`, should they be invoked
+// again, so that a regression shows up as recorded calls rather than as a race.
 // Returns false if the wait ended by the timeout.
 func VerifTick(s *Scheduler, t time.Time, grace, timeout time.Duration) bool {
 	inner := s.entryReader
@@ -35,7 +36,7 @@ func VerifTick(s *Scheduler, t time.Time, grace, timeout time.Duration) bool {
 	for {
 		st, fi := r.started.Load(), r.finished.Load()
 		if st == fi && fi >= r.expected.Load() {
-			if fi >= r.expected.Load()+r.zero.Load() || time.Since(begin) > grace {
+			if fi >= r.expected.Load()+r.skipped.Load() || time.Since(begin) > grace {
 				return true
 			}
 		}
@@ -49,21 +50,31 @@ func VerifTick(s *Scheduler, t time.Time, grace, timeout time.Duration) bool {
 type verifSyncReader struct {
 	inner             entryReader
 	t                 time.Time
-	expected, zero    atomic.Int64 // entries due at t with a real Next / with the zero time
+	expected, skipped atomic.Int64 // entries run() invokes at t / entries due at t that the fixes skip
 	started, finished atomic.Int64
 }
 
 func (r *verifSyncReader) Start(done chan any) { r.inner.Start(done) }
 func (r *verifSyncReader) Read(now time.Time) ([]*entry, error) {
 	es, err := r.inner.Read(now)
+	seen := map[string]bool{}
 	for _, e := range es {
 		if e.Job == nil {
 			continue
 		}
+		key := e.EntryType.String() + " " + e.Job.String()
+		if d := e.Job.GetDAG(); d != nil {
+			key = e.EntryType.String() + " " + d.Location
+		}
 		if e.Next.IsZero() {
-			r.zero.Add(1)
+			r.skipped.Add(1)
 		} else if !e.Next.After(r.t) {
-			r.expected.Add(1)
+			if seen[key] {
+				r.skipped.Add(1)
+			} else {
+				seen[key] = true
+				r.expected.Add(1)
+			}
 		}
 		e.Job = &verifJob{job: e.Job, r: r}
 	}
